@@ -17,6 +17,11 @@ fn decision_literals() -> gen::VS {
             json!(true), json!(false), Value::Null, json!(0), json!(1), json!(""), json!("0"), json!("a"), json!([]), json!([0]), json!([[]]), json!({}), json!({"a": 0}), json!(-1), json!(" "),
             json!("false"), json!([null]), json!(0.0), json!(2.5), json!("b"), json!(7), json!([1, 2]),
         ]),
+        // multi-key object literals that carry members named after the control operators: values, not nested chains
+        select(vec![
+            json!({"or": [0, ""], "label": "x"}), json!({"and": [1, 0], "else": [2]}), json!({"if": [true, 1, 2], "z": 1}), json!({"or": [{"+": ["x"]}], "k": 1}), json!({"and": [{"log": "IN-LITERAL"}], "or": [1]}),
+            json!({"?:": [1, 2, 3], "if": [0]}), json!({"or": [], "and": []}),
+        ]),
         Just(gen::f(-0.0)),
         Just(gen::f(1e-320)),
     ]
